@@ -677,8 +677,11 @@ def loop_direction(init, cond, inc):
             if v.kids and const_eval(v.kids[-1]) == 0:
                 starts_zero = True
     lower_bound = False
-    if cond is not None and cond.kind == 'BinaryOperator':
-        if cond.op in ('>=', '>') and const_eval(cond.kids[1]) in (0, -1):
+    if cond is not None and cond.kind == 'BinaryOperator' and cond.op in ('<', '<=', '>', '>=') and \
+            len(cond.kids) == 2:
+        # `i >= 0`, `i > -1`, or the same written `0 <= i`, `-1 < i`
+        small = cond.kids[0] if cond.op in ('<', '<=') else cond.kids[1]
+        if const_eval(small) in (0, -1):
             lower_bound = True
     if up and not down and starts_zero:
         return 'ASC'
